@@ -6,10 +6,11 @@ sys.path.insert(0, ROOT)
 props = [json.loads(l) for l in open(os.path.join(ROOT, "properties.jsonl"))]
 checks, na = [], []
 na_reasons = json.load(open(os.path.join(ROOT, "tools", "not_applicable.json")))
+claimed = set(json.load(open(os.path.join(ROOT, "tools", "claimed.json"))))   # checks reviewed and accepted by the coordinator
 for p in props:
     pid = p["id"]
     path = os.path.join(ROOT, "checks", pid + ".py")
-    if not os.path.exists(path):
+    if not os.path.exists(path) or pid not in claimed:
         na.append(dict(property_id=pid, reason=na_reasons.get(pid, "not yet covered by a model + theorems + tie in this framework (work in progress, see DESIGN.md §7.2); not claimed")))
         continue
     mod = importlib.import_module("checks." + pid)
